@@ -260,6 +260,8 @@ def gen_c01_spec(rng: random.Random, maxn: int = 40) -> Dict[str, Any]:
             m["labels"] = {"origin": "cron", "trace": "t-1"}
         elif kind == "valid" and rng.random() < 0.1:
             m["labels"] = rng.choice([{"sig": b"hello world!", "n": 3}, {"blob": b"\xfb\xff\xfe"}, {"f": 1.5, "flag": True, "raw": b"ab?"}])
+        if kind == "valid" and "labels" not in m and rng.random() < 0.08:
+            m["raw_labels"] = "native"  # a hand-built message whose typed labels carry native JSON values
         if kind == "valid" and "kwargs" not in m and rng.random() < 0.1:
             m["api_kwargs"] = True
         if kind == "valid" and rng.random() < 0.12:
@@ -499,6 +501,9 @@ def gen_c02_spec(rng: random.Random) -> Dict[str, Any]:
                 beh["sync_hold"] = rng.choice([0.05, 0.3, 1.0])
             if rng.random() < 0.3:
                 m["timeout"] = rng.choice([10, 30])  # a (generous) timeout label on a sync task function
+        elif rng.random() < 0.06:
+            # a timeout label that is not a number: the execution fails like any other failing execution
+            m["timeout_raw"] = rng.choice(["soon", "", "None", "1s"])
         elif rng.random() < 0.3:
             d = O._dur_total(beh) or 0.0
             m["timeout"] = rng.choice([0.05, 0.2, max(0.01, d - 0.01), d + 0.01, 10])
@@ -709,9 +714,12 @@ def gen_c03_spec(rng: random.Random, maxn: int = 40) -> Dict[str, Any]:
           for h, toks in hook_raise.items() if toks}
     spec: Dict[str, Any] = {
         "cfg": {"A": A, "P": rng.choice([0, 0, 1, 2, 3]), "W": rng.choice([None, None, None, 0.3, 2.0])}, "msgs": msgs, "end_stream": True,
-        "backend": {"lat": rng.choice([0, "y", 0.01]), "fail": fail, "fail_cancel": fail_cancel},
+        "backend": {"lat": rng.choice([0, "y", 0.01, 0.01, 0.3]), "fail": fail, "fail_cancel": fail_cancel},
         "_probe_toks": probe_toks,
     }
+    spec["cfg"]["ack"] = rng.choice(["when_saved", "when_saved", "when_executed", "when_received"])
+    if spec["backend"]["lat"] == 0.3:
+        spec["cfg"]["W"] = None  # (a slow store: every message is being processed until its result is written)
     if fail and rng.random() < 0.5:
         # the store refuses these results for good, with the error classes of a network client
         spec["backend"]["fail_exc"] = rng.choice(["ConnectionError", "ConnectionError", "TimeoutError", "socket.timeout", "KeyError"])
@@ -1173,6 +1181,10 @@ def gen_c06_spec(rng: random.Random, depth: int, maxmsgs: int) -> Dict[str, Any]
             tasks[f"task{ti}"]["labels"] = rng.choice([{"priority": 1}, {"team": "core", "q": 2}])
         if tasks[f"task{ti}"]["fn"] == "async" and rng.random() < 0.3:
             tasks[f"task{ti}"]["progress"] = True  # ProgressTracker dependency (reports, then updates state only)
+    if ntasks == 2 and rng.random() < 0.25:
+        # one of the two is a task of the process-wide shared broker, executed by this worker next to its own task
+        tasks["task1"]["shared"] = True
+        tasks["task1"].pop("labels", None)
     overrides: Dict[str, str] = {}
     if rng.random() < 0.3 and deps:
         # broker.dependency_overrides: a dependency is replaced by one whose own graph has an un-cached,
@@ -1210,9 +1222,12 @@ def gen_c06_spec(rng: random.Random, depth: int, maxmsgs: int) -> Dict[str, Any]
         spec["backend"]["stock"] = True  # results also go into the bundled InmemoryResultBackend
         for m in msgs:
             m.pop("raw_labels", None)
+        if n >= 2 and rng.random() < 0.3:
+            # task ids chosen by the caller that differ only in letter case: two ids, two results
+            msgs[0]["tok"], msgs[1]["tok"] = rng.choice([("Report-A1", "report-a1"), ("JOB7", "job7"), ("abcDEF", "ABCdef")])
         if rng.random() < 0.7:
             # the client fetches all results with taskiq.gather(), handles in an order of its own
-            order = [f"m{i}" for i in range(n)]
+            order = [m.get("tok") or f"m{i}" for i, m in enumerate(msgs)]
             rng.shuffle(order)
             spec["gather"] = order
     elif rng.random() < 0.25 and not any(ts.get("progress") for ts in tasks.values()):
@@ -1232,6 +1247,25 @@ def gen_c06_spec(rng: random.Random, depth: int, maxmsgs: int) -> Dict[str, Any]
         spec["stop_at"] = round(2 * (est_horizon(spec) + 5 * len(deps)), 3)
         spec["horizon"] = 2 * spec["stop_at"] + 10
         return spec
+    if not any(m.get("task_id") for m in msgs) and rng.random() < 0.3:
+        # task functions that send another task from their body (with the in-place in-memory broker the child runs to its
+        # end inside the parent's asyncio task)
+        if spec.get("via") == "inmemory" and rng.random() < 0.6:
+            spec["inplace"] = True
+        for i, m in enumerate(msgs):
+            b0 = m["beh"][0] if isinstance(m["beh"], list) else m["beh"]
+            if tasks[m["task"]]["fn"] == "async" and rng.random() < 0.5:
+                ct = rng.choice(list(tasks))
+                cb = gen_beh(rng, ["ok", "ok", "raise"], [[], ["y"], [0.05]])
+                if tasks[ct]["fn"] == "sync":
+                    cb["dur"] = []
+                b0["spawn"] = {"tok": f"ch{i}", "task": ct, "labels": {"k": rng.randint(0, 9), f"c{i}": "x"}, "beh": cb}
+        if not spec.get("loopback"):
+            spec["loopback"] = True
+            spec["end_stream"] = False
+            spec["stop_at"] = round(2 * (est_horizon(spec) + 5 * len(deps)) + 5, 3)
+            spec["horizon"] = 2 * spec["stop_at"] + 10
+            return spec
     spec["horizon"] = est_horizon(spec) + 5 * len(deps)
     return spec
 
